@@ -521,6 +521,14 @@ fn gen_case(fmt: Fmt, rng: &mut Rng) -> Case {
             }
         };
         names.push(LName { name, target });
+        // the same name defined again right behind, with the same definition but another (sheet-local) scope:
+        // two defined names of the workbook, both must be listed
+        if matches!(fmt, Fmt::Xls | Fmt::Xlsb) && sheets.len() >= 2 && names.len() < n_names && rng.chance(1, 6) {
+            let twin = names[names.len() - 1].clone();
+            if !matches!(twin.target, Target::NameMul(..)) {
+                names.push(twin);
+            }
+        }
     }
     // xlsb: the records Excel writes between BrtWbProp and BrtBeginBundleShs (BrtBeginBookViews, BrtBookView with the
     // window geometry, BrtEndBookViews) and an unknown future record, with their payloads
@@ -691,6 +699,17 @@ fn rel_id(c: &Case, i: usize, rng: &mut Rng) -> String {
     format!("{}{}", f, i + 1)
 }
 
+/// scope of defined name `j`: `None` = workbook, `Some(k)` = local to sheet `k` — the k-th occurrence of a name that
+/// is defined several times is local to sheet k
+fn name_scope(c: &Case, j: usize) -> Option<usize> {
+    let total = c.names.iter().filter(|n| n.name == c.names[j].name).count();
+    if total <= 1 {
+        return None;
+    }
+    let occ = c.names[..j].iter().filter(|n| n.name == c.names[j].name).count();
+    Some(occ.min(c.sheets.len().saturating_sub(1)))
+}
+
 fn units_hex(u: &[u16]) -> String {
     hex(&u.iter().flat_map(|x| x.to_le_bytes()).collect::<Vec<u8>>())
 }
@@ -777,7 +796,7 @@ fn build_xls(c: &Case) -> Built {
         rng.shuffle(&mut referenced);
     }
     book.xtis = referenced.iter().map(|s| (0u16, *s as i16, *s as i16)).collect();
-    for n in &c.names {
+    for (j, n) in c.names.iter().enumerate() {
         let class = if c.plain { 0x00 } else { *rng.pick(&[0x00u8, 0x20, 0x40]) };
         let ixti_of = |s: &usize| referenced.iter().position(|x| x == s).unwrap() as u16;
         let mut rgce = vec![];
@@ -818,7 +837,7 @@ fn build_xls(c: &Case) -> Built {
             }
             Target::Text(_) => unreachable!("text definitions are for xlsx/ods"),
         }
-        book.names.push(xlsw::XlsName { name: wname(&n.name), rgce, name_wide: if c.plain || forced { Some(false) } else { None }, itab: 0 });
+        book.names.push(xlsw::XlsName { name: wname(&n.name), rgce, name_wide: if c.plain || forced { Some(false) } else { None }, itab: name_scope(c, j).map_or(0, |k| k as u16 + 1) });
     }
     if c.knobs & 1 != 0 && c.sheets.len() >= 2 {
         let mut order: Vec<usize> = (0..c.sheets.len()).rev().collect();
@@ -924,7 +943,7 @@ fn build_xlsb(c: &Case) -> Built {
         rng.shuffle(&mut referenced);
     }
     book.extern_sheets = referenced.iter().map(|s| (*s as i32, *s as i32)).collect();
-    for n in &c.names {
+    for (j, n) in c.names.iter().enumerate() {
         let class = if c.plain { 0x00 } else { *rng.pick(&[0x00u8, 0x20, 0x40]) };
         let ixti_of = |s: &usize| referenced.iter().position(|x| x == s).unwrap() as u16;
         let mut rgce = vec![];
@@ -971,7 +990,7 @@ fn build_xlsb(c: &Case) -> Built {
             }
             Target::Text(_) => unreachable!("text definitions are for xlsx/ods"),
         }
-        book.names.push(xlsbw::DefinedName { name: n.name.clone(), rgce, itab: 0xFFFF_FFFF });
+        book.names.push(xlsbw::DefinedName { name: n.name.clone(), rgce, itab: name_scope(c, j).map_or(0xFFFF_FFFF, |k| k as u32) });
     }
     if c.knobs & 512 != 0 {
         // BrtSupAddin (0x029B) / BrtSupSame (0x0166) before the self link, BrtSupBookSrc (0x0163, relationship id) after
@@ -1064,13 +1083,27 @@ fn build_xlsx(c: &Case) -> Built {
             },
             wrap(q("externalReferences"), el(q("externalReference"), vec![kv("r:id", "rId901")])),
             wrap(q("pivotCaches"), el(q("pivotCache"), vec![kv("cacheId", "7"), kv("r:id", "rId902")])),
+            {
+                // a foreign `workbookPr` OUTSIDE extLst (markup-compatibility block): no date1904 attribute, must not
+                // touch the date system wherever it stands relative to the real one
+                let mut v = vec![Ev::Start("mc:AlternateContent".into(), vec![kv("xmlns:mc", "http://schemas.openxmlformats.org/markup-compatibility/2006")])];
+                v.push(Ev::Start("mc:Choice".into(), vec![kv("Requires", "x15"), kv("xmlns:x15", "http://schemas.microsoft.com/office/spreadsheetml/2010/11/main")]));
+                v.extend(el("x15:workbookPr".into(), vec![kv("chartTrackingRefBase", "1")]));
+                v.push(Ev::End("mc:Choice".into()));
+                v.push(Ev::End("mc:AlternateContent".into()));
+                v
+            },
             vec![Ev::Other("<!-- names & <sheets> below -->".into())],
             vec![Ev::Other("<?audit keep=\"1\"?>".into())],
             wrap(q("functionGroups"), vec![Ev::Text("\n  ".into())]),
         ];
+        let twin = blocks[4].clone();
         rng.shuffle(&mut blocks);
         let k = rng.range(1, blocks.len() as u64) as usize;
         blocks.truncate(k);
+        if !blocks.contains(&twin) && (c.plain || rng.chance(1, 2)) {
+            blocks.push(twin);
+        }
         book.workbook_inert = blocks;
     }
     if c.ext != 0 {
@@ -2076,6 +2109,23 @@ fn corpus() -> Vec<Case> {
         let mut c = base(Fmt::Xlsx);
         c.knobs = 128;
         c.sheets = vec![sh("S1", 0, Kind::Work), sh("S2", 1, Kind::Chart)];
+        v.push(c);
+    }
+    // fifth-round seeded changes (C16-m18, m19)
+    {
+        for fmt in [Fmt::Xlsb, Fmt::Xls] {
+            let mut c = base(fmt);
+            c.sheets = vec![sh("S1", 0, Kind::Work), sh("S2", 0, Kind::Work)];
+            c.names = vec![
+                LName { name: "Total".into(), target: Target::Ref(0, 0, 0) },
+                LName { name: "Total".into(), target: Target::Ref(0, 0, 0) },
+                LName { name: "Other".into(), target: Target::Ref(1, 1, 1) },
+            ];
+            v.push(c);
+        }
+        let mut c = base(Fmt::Xlsx);
+        c.date1904 = true;
+        c.inert = true;
         v.push(c);
     }
     // fourth-round seeded changes (C16-m13 … m16)
